@@ -267,6 +267,58 @@ func (w *World) NextTick(i int) int64 {
 	return w.Insts[i].nextTick
 }
 
+func (w *World) bulkGC(n int) string {
+	st, err := silence.New(silence.Options{Retention: time.Minute, Metrics: prometheus.NewRegistry()})
+	if err != nil {
+		panic(err)
+	}
+	ctx := context.Background()
+	now := time.Now()
+	mk := func(v string, d time.Duration) *pb.Silence {
+		return &pb.Silence{MatcherSets: []*pb.MatcherSet{{Matchers: []*pb.Matcher{{Type: pb.Matcher_EQUAL, Name: "bulk", Pattern: v}}}},
+			StartsAt: timestamppb.New(now), EndsAt: timestamppb.New(now.Add(d)), CreatedBy: "verif", Comment: "bulk"}
+	}
+	var long []string
+	for i := 0; i < n+3; i++ {
+		// the long-lived ones are spread over the index: first, middle, last
+		if i == 0 || i == n/2+1 || i == n+2 {
+			p := mk(fmt.Sprintf("long%d", len(long)), 10*time.Hour)
+			if err := st.Set(ctx, p); err != nil {
+				panic(err)
+			}
+			long = append(long, p.Id)
+			continue
+		}
+		if err := st.Set(ctx, mk(fmt.Sprintf("s%d", i), time.Minute)); err != nil {
+			panic(err)
+		}
+	}
+	time.Sleep(3 * time.Minute) // past end + retention of the short ones
+	removed, err := st.GC()
+	if err != nil {
+		return "gcerror"
+	}
+	listed, _, _ := st.Query(ctx, silence.QState(silence.SilenceStateActive))
+	byID := 0
+	for _, id := range long {
+		if r, _, err := st.Query(ctx, silence.QIDs(id)); err == nil && len(r) == 1 {
+			byID++
+		}
+	}
+	sl := silence.NewSilencer(st, WLogger(), eventrecorder.NopRecorder())
+	muted := 0
+	for i := range long {
+		if sl.Mutes(ctx, model.LabelSet{"bulk": model.LabelValue(fmt.Sprintf("long%d", i))}) {
+			muted++
+		}
+	}
+	// and the survivors are collected when their own time comes
+	time.Sleep(11 * time.Hour)
+	removed2, _ := st.GC()
+	all, _, _ := st.Query(ctx)
+	return fmt.Sprintf("%d %d %d %d %d %d", removed, len(listed), byID, muted, removed2, len(all))
+}
+
 func (w *World) Abs(off int64) time.Time { return w.T0.Add(time.Duration(off)) }
 func (w *World) Rel(t time.Time) int64   { return int64(t.Sub(w.T0)) }
 
@@ -673,6 +725,12 @@ func (w *World) Exec(line string) string {
 			return "error " + w.Dump(j)
 		}
 		return fmt.Sprintf("%s %s %d %s", ov, MeshesStr(l), len(w.TakeBC(j)), w.Dump(j))
+	case "bulkgc":
+		// a burst: n short silences and 3 long ones in a store of its own (not the case's instance); the short ones run
+		// past end + retention, GC collects them (the version index shrinks by orders of magnitude); the long ones are
+		// still listed by a state query, by id, and muting — and are collected in their turn
+		n, _ := strconv.Atoi(t[2])
+		return w.bulkGC(n)
 	case "mtick":
 		// the Maintenance loop's tick at exactly this instant: GC + snapshot file (observed like a gc)
 		before := len(w.State(i))
